@@ -109,6 +109,8 @@ def gen_value(g, kind):
     r = g.random()
     if kind == 'bool':
         return r < 0.5
+    if kind == 'intlit':
+        return g.choice([0, 1, 2, 3])        # JSON integer literals
     if kind == 'real':
         if r < 0.15:
             return 0.0
